@@ -231,3 +231,59 @@ def _():
             # only the recorded deviation (last digit read as a low nibble) is the known finding
             fails.append(dict(text=text.decode(), got=got.hex() if isinstance(got, bytes) else repr(got), want=want.hex(), known="F03" if got == deviant else None))
     return dict(cases=4, failures=fails)
+
+
+# -- interning (C01, C12): a name is the object the table holds for its spelling - for ever.  The table is abstract here: any number of entries, the asked name
+#    present or not; whatever else the function does with the table (delete, clear, pop, replace) is recorded and refused --------------------------------------
+class _AbstractTable:
+    """a dict of unknown size: membership of the one name asked for is a choice, the size is a symbolic number, every mutation is logged"""
+    def __init__(self, ctx, present):
+        self.present, self.held = present, "the-object-held-for-this-name"
+        self.size = ctx.fresh_int("table_size")
+        ctx.assume(self.size >= (1 if present else 0))
+        self.log = []
+    def __sym_len__(self, I):
+        return self.size
+    def __sym_contains__(self, I, x, node):
+        return self.present if x == "the-name" else False
+    def __sym_getitem__(self, I, idx, node):
+        from pyvc.symexec import SymRaise
+        if idx == "the-name" and self.present:
+            return self.held
+        raise SymRaise(KeyError, "name not in table")
+    def __sym_setitem__(self, I, idx, v, node):
+        self.log.append(("set", idx, v))
+        if idx == "the-name":
+            self.present, self.held = True, v
+    def __sym_getattr__(self, I, name, node):
+        from pyvc.values import SymFn as _SF
+        if name in ("clear", "pop", "popitem", "update", "setdefault", "__delitem__"):
+            return _SF(lambda I2, *a, **k: self.log.append((name,) + tuple(a)), name)
+        if name == "get":
+            return _SF(lambda I2, k, d=None: self.held if (k == "the-name" and self.present) else d, "get")
+        raise AttributeError(name)
+
+
+class _SymTab(T.Sort):
+    def fresh(self, ctx, name):
+        present = ctx.choose([True, False], "name-already-interned")
+        tab = _AbstractTable(ctx, present)
+        made = []
+        klass = SymFn(lambda I, nm: (made.append(nm), SObj(None, {"name": nm, "_fresh": True}, "new-symbol"))[1], "klass")
+        return SObj(real_module("pdfminer.psparser").PSSymbolTable, {"dict": tab, "klass": klass, "_made": made, "_present": present}, name)
+    def sample(self, rng):
+        return None
+    def from_model(self, ev, v):
+        return {"already_interned": v.f["_present"], "table_size": int(str(ev(v.f["dict"].size)))}
+
+
+c = contract("pdfminer.psparser:PSSymbolTable.intern", props=["C01", "C12"])
+c.param("self", _SymTab()).param("name", T.Const("the-name"))
+c.skip_cross = True
+c.inline = True
+c.mod("self.dict").mod("self._made")
+c.returns(T.Opaque("symbol"))
+c.ens("the-object-already-held-or-one-new-object-stored-under-the-name-nothing-else-touched", lambda self, old, result: (
+    (result == "the-object-held-for-this-name" and self.dict.log == [] and self._made == []) if old.self._present
+    else (self._made == ["the-name"] and len(self.dict.log) == 1 and self.dict.log[0][0] == "set" and self.dict.log[0][1] == "the-name" and self.dict.log[0][2] is result
+          and isinstance(result, SObj) and result.f.get("_fresh") is True)))
